@@ -122,11 +122,12 @@ Fixpoint h_mapm {A K : Type} (f : A -> option K) (l : list A) : option (list K) 
   end.
 (* list.sort(key=...): the keys are computed first, then a stable sort that only asks `key(y) < key(x)`
    (insertion from the right; leb p q = not (key q < key p)) *)
-Fixpoint h_insert {A : Type} (leb : A -> A -> bool) (x : A) (l : list A) : list A :=
-  match l with
-  | [] => [x]
-  | y :: l' => if leb x y then x :: l else y :: h_insert leb x l'
-  end.
+Definition h_insert {A : Type} (leb : A -> A -> bool) : A -> list A -> list A :=
+  fix ins (x : A) (l : list A) {struct l} : list A :=
+    match l with
+    | [] => [x]
+    | y :: l' => if leb x y then x :: l else y :: ins x l'
+    end.
 Definition h_ssort {A : Type} (leb : A -> A -> bool) (l : list A) : list A := fold_right (h_insert leb) [] l.
 Definition h_sort_by {A K : Type} (ltb : K -> K -> bool) (ks : list K) (xs : list A) : list A :=
   map snd (h_ssort (fun p q : K * A => negb (ltb (fst q) (fst p))) (combine ks xs)).
@@ -1501,7 +1502,8 @@ def translate_spec(repo, spec):
                     raise Unsupported("internal: operator after an oracle in the Section context")
                 else:
                     args.append(inst)
-        insts.append("Definition %s_f := @%s %s." % (ft.coq, ft.coq, " ".join(targs + args)))
+        if targs or args:
+            insts.append("Definition %s_f := @%s %s." % (ft.coq, ft.coq, " ".join(targs + args)))
     head = ("(* GENERATED by tools/py2coq_heap.py from %s - never edit, never commit.\n"
             "   Shallow Gallina definitions (object store per written field, lists as values) of: %s. *)\n"
             % (spec["source"], ", ".join(i["function"] for i in info)))
